@@ -5,6 +5,7 @@ import (
 	"math"
 	"testing"
 
+	rn "github.com/Trisia/randomness"
 	"github.com/Trisia/randomness/detect"
 	"pgregory.net/rapid"
 
@@ -21,6 +22,7 @@ type c11Case struct {
 	Alpha   []int   `json:"alphabet,omitempty"` // byte or nibble alphabet
 	Skew    float64 `json:"skew,omitempty"`
 	M       int     `json:"skew_m,omitempty"`
+	PriorPoker int  `json:"prior_poker_bytes,omitempty"` // history: the poker test was called before on this many high-valued bytes (m = 8 and m = 4)
 }
 
 func (c c11Case) data() []byte {
@@ -61,6 +63,14 @@ func (c c11Case) data() []byte {
 
 func checkC11(c c11Case) (Outcome, error) {
 	data := c.data()
+	if c.PriorPoker > 0 {
+		short := make([]byte, c.PriorPoker)
+		for i := range short {
+			short[i] = byte(255 - i%7)
+		}
+		_ = rn.Poker(short)
+		_, _ = rn.PokerTestBytes(short, 4)
+	}
 	// more bytes are available than requested: exactly numByte must be consumed
 	r := gen.NewReader(append(append([]byte{}, data...), gen.NewRng(c.Seed^1).Bytes(64)...))
 	v, err := detect.SingleDetect(r, c.NumByte)
@@ -128,6 +138,9 @@ func genC11(t *rapid.T) c11Case {
 		nb = rapid.IntRange(0, 4096).Draw(t, "numbyte")
 	}
 	c := c11Case{NumByte: nb, Seed: rapid.Uint64().Draw(t, "seed")}
+	if rapid.IntRange(0, 2).Draw(t, "history") == 0 {
+		c.PriorPoker = rapid.SampledFrom([]int{1, 16, 100, 255, 256, 1000}).Draw(t, "prior_poker")
+	}
 	c.Kind = rapid.SampledFrom([]string{"uniform", "uniform", "constant", "byteAlphabet", "nibbleAlphabet", "skewed", "skewed", "skewed"}).Draw(t, "kind")
 	switch c.Kind {
 	case "byteAlphabet":
